@@ -1,5 +1,6 @@
 //! vnet: sync-level monitors (C04 C05 C09 C11 C17, sync parts of C02 C03 C07 C08 C20).
 mod c04;
+mod c09;
 mod c11;
 mod c17;
 mod c19;
@@ -19,6 +20,7 @@ fn main() {
     match args.check.as_str() {
         "c04" => rt.block_on(c04::run(&args, &mut rep, "C04")),
         "c05" => rt.block_on(c04::run(&args, &mut rep, "C05")),
+        "c09" => rt.block_on(c09::run(&args, &mut rep)),
         "c11" => rt.block_on(c11::run(&args, &mut rep)),
         "c17" => rt.block_on(c17::run(&args, &mut rep)),
         "c19" => rt.block_on(c19::run(&args, &mut rep)),
